@@ -27,6 +27,9 @@ pub struct Profile {
     pub w_wrongtype: u32, // percent of opens with deliberately different kind/types
     pub ops_per_txn: u32,
     pub big_values: bool,
+    pub w_acct: u32,   // percent of transaction ends followed by a page-accounting probe
+    pub w_settle: u32, // weight of a settle sequence (drop everything, empty commits, probe)
+    pub settle_commits: u32,
 }
 
 impl Profile {
@@ -48,6 +51,9 @@ impl Profile {
             w_wrongtype: 0,
             ops_per_txn: 30,
             big_values: true,
+            w_acct: 0,
+            w_settle: 0,
+            settle_commits: 3,
         };
         match name {
             "table" => base,
@@ -96,6 +102,37 @@ impl Profile {
                 w_integrity: 2,
                 w_wrongtype: 5,
                 ops_per_txn: 12,
+                ..base
+            },
+            "crash" => Profile {
+                names: vec!["a", "b"],
+                multimaps: true,
+                w_catalog: 6,
+                w_savepoint: 10,
+                w_reader: 0,
+                w_nondurable: 35,
+                w_abort: 10,
+                w_reopen: 3,
+                w_compact: 2,
+                w_integrity: 1,
+                ops_per_txn: 8,
+                ..base
+            },
+            "pages" => Profile {
+                names: vec!["a", "b", "c"],
+                multimaps: true,
+                w_catalog: 6,
+                w_savepoint: 12,
+                w_reader: 10,
+                w_iter: 3,
+                w_nondurable: 40,
+                w_abort: 20,
+                w_reopen: 2,
+                w_compact: 1,
+                w_integrity: 1,
+                ops_per_txn: 10,
+                w_acct: 100,
+                w_settle: 3,
                 ..base
             },
             other => panic!("unknown profile {other}"),
@@ -526,6 +563,11 @@ impl Gen {
             if x < acc {
                 return json!({"e": "integrity"});
             }
+            acc += self.p.w_settle;
+            if x < acc {
+                self.settle();
+                continue;
+            }
             self.begin_write(rng);
         }
     }
@@ -558,6 +600,9 @@ impl Gen {
                 "cend" | "abort" => {
                     self.wtx = false;
                     self.open.clear();
+                    if self.p.w_acct > 0 && (self.ctr + self.vctr) % 100 < self.p.w_acct {
+                        self.queue.push_back(json!({"e": "acct"}));
+                    }
                     if e == "abort" || !okr {
                         // forget optimistic knowledge gained inside the transaction
                         self.known.clear();
@@ -643,6 +688,32 @@ impl Gen {
                 _ => {}
             }
         }
+    }
+
+    /// Let go of everything that pins pages, run the settle commits, probe the accounting
+    fn settle(&mut self) {
+        for it in &self.its {
+            self.queue.push_back(json!({"e": "itdrop", "it": it}));
+        }
+        for (h, _) in &self.readers {
+            self.queue.push_back(json!({"e": "dr", "h": h}));
+        }
+        for s in &self.sps {
+            self.queue.push_back(json!({"e": "spdrop", "s": s}));
+        }
+        if !self.psp.is_empty() {
+            self.queue.push_back(json!({"e": "bw"}));
+            for id in &self.psp {
+                self.queue.push_back(json!({"e": "spdel", "id": id}));
+            }
+            self.queue.push_back(json!({"e": "commit"}));
+            self.psp.clear();
+        }
+        for _ in 0..self.p.settle_commits {
+            self.queue.push_back(json!({"e": "bw"}));
+            self.queue.push_back(json!({"e": "commit"}));
+        }
+        self.queue.push_back(json!({"e": "acct", "settled": true}));
     }
 
     /// Next already-queued step, if any (used to drain before finishing)
